@@ -118,10 +118,12 @@ class weight(object):
         if isinstance(val, (list,tuple)):
             if len(val) != 2:
                 raise Exception("Weight range must have two elements")
-            to_expr(val[0])
-            rng_lhs_e = pop_expr()
+            # Bounds that are already expressions reside on the expression
+            # stack in evaluation order: convert in reverse
             to_expr(val[1])
             rng_rhs_e = pop_expr()
+            to_expr(val[0])
+            rng_lhs_e = pop_expr()
         elif isinstance(val, rng):
             rng_lhs_e = val.low
             rng_rhs_e = val.high 
